@@ -31,7 +31,7 @@ func verifNewFeeder(m *fakes.Metrics, maxBytes int64) (*outputFeeder, *chunkMana
 
 func verifSameBytes(got, want []byte, what string) {
 	sym.Assert(len(got) == len(want), what+": same length")
-	j := sym.IntRange("anyIndex", 0, 1<<20)
+	j := sym.IntRange("anyIndex", 0, 16<<20)
 	if j < len(want) && j < len(got) {
 		sym.Assert(got[j] == want[j], what+": same bytes")
 	}
@@ -51,10 +51,14 @@ func VerifC04_FaultDuringSpill() {
 	fs := fsmodel.Reset()
 	m := fakes.NewMetrics()
 	feeder, man := verifNewFeeder(m, 1<<40)
-	data := sym.BigBytes("data", 1, 5000)
+	maxLen := 5000
+	if sym.Tier() > 0 {
+		maxLen = 16 << 20 // beyond the largest chunk the agent produces
+	}
+	data := sym.BigBytes("data", 1, maxLen)
 	orig := append([]byte{}, data...)
 	fault := sym.Choice("fault", 5) // 0 none, 1 short write, 2 error after k bytes, 3 crash after k bytes, 4 open fails
-	k := sym.IntRange("k", 0, 5000)
+	k := sym.IntRange("k", 0, maxLen)
 	sym.Assume(k < len(data))
 	fs.OnOpen = func(name string, write bool) error {
 		if fault == 4 && write {
